@@ -466,21 +466,24 @@ def handleIO (op : String) (args : List String) (impl : Option (List String)) : 
       let mut itoks := (impl.getD []).drop 1
       for t in reqs.splitOn "," do
         let comp := t.endsWith "c"
-        let k := ((if comp then (t.dropEnd 1).toString else t).toNat?).getD 0
+        let half := t.endsWith "h"       -- a data request with a buffer of half the chunk's size
+        let k := ((if comp || half then (t.dropEnd 1).toString else t).toNat?).getD 0
         let it := itoks.head?.getD ""
         itoks := itoks.drop 1
         match (if c.err then none else Reader.chunkAt c k) with     -- zck_get_chunk returns NULL on a context in error state
         | none => outs := outs.push "nochunk"
         | some ch =>
-          let want := if comp then ch.compLen else ch.len
-          if want > 2^26 then outs := outs.push "toobig" else
+          let want0 := if comp then ch.compLen else ch.len
+          if want0 > 2^26 then outs := outs.push "toobig" else
+          let want := if half && want0 ≥ 2 then want0 / 2 else want0
           let (r, c') := if comp then Reader.getChunkCompData f c k want else Reader.getChunkData Sha.zckHash D f c k want
           c := c'
           outs := outs.push s!"{r.ret}:{if r.ret > 0 then PredRead.showBytes r.bytes else "-"}"
           match it.splitOn ":" with
           | rs :: rest =>
             match rs.toInt? with
-            | some ri => ok := ok && PredRead.c14_ok Sha.zckHash D f k comp ri (":".intercalate rest)
+            | some ri => ok := ok && (if half then PredRead.c14_prefix_ok Sha.zckHash D f k want ri (":".intercalate rest)
+                                       else PredRead.c14_ok Sha.zckHash D f k comp ri (":".intercalate rest))
             | none => ok := false
           | _ => ok := false
       return ("OK " ++ " ".intercalate outs.toList, impl.map fun _ => ok)
@@ -536,6 +539,14 @@ def handleIO (op : String) (args : List String) (impl : Option (List String)) : 
         | ["HANG"] => false
         | _ => true
       return (out, pv)
+  | "WRITE3", [_, _, _, _, _] =>
+    -- three writer contexts with overlapping lifetimes: the model keeps no state outside a context (C19's footprint theorem), so
+    -- every close succeeds and every output reads back as what its context was given
+    let out := "OK c=111 rt=111"
+    let pv := impl.map fun i => match i with
+      | ["OK", c, rt] => c == "c=111" && rt == "rt=111"
+      | _ => false
+    return (out, pv)
   | "ZCKOPS", [path, split, manual] =>
     -- the calls the zck tool makes for this input (read in 32 KiB blocks) and the resulting chunk sizes
     let f ← readFile path
